@@ -144,7 +144,7 @@ def part_wave(s):
     viol, val, runs = [], 0, 0
     tcs = np.full(ny - 1, s["tc"])
     allv = []
-    for CL in (0.0, 0.3, 0.6):
+    for CL in (0.0, 0.3, 0.6, -0.3):
         mc = mcrit(s["sweep"], s["tc"], CL)
         machs = sorted(set(list(MACH) + [x for x in (mc - 1e-3, mc, mc + 1e-3, mc + 0.02) if 0 < x < 0.95]))
         vals = np.array([ev(p, Mach_number=M, CL=CL, t_over_c=tcs)[1] for M in machs])
@@ -165,9 +165,10 @@ def part_wave(s):
                 viol.append(dict(sig=dict(oracle="cdw_increasing_in_mach"), msg="CDw does not grow from M=%.4f to %.4f: %.3e -> %.3e" % (M1, M2, v1, v2), measure=float(v1 - v2)))
     # increasing with lift at fixed Mach beyond onset
     for M in (0.84, 0.9, 0.94):
-        v = [ev(p, Mach_number=M, CL=CL, t_over_c=tcs)[1] for CL in (0.0, 0.3, 0.6)]
-        runs += 3
-        for a, b, cl in ((v[0], v[1], 0.3), (v[1], v[2], 0.6)):
+        # signed lift coefficient: down-loaded surfaces (negative CL) included, the growth with lift has no kink at zero lift
+        v = [ev(p, Mach_number=M, CL=CL, t_over_c=tcs)[1] for CL in (-0.6, -0.3, 0.0, 0.3, 0.6)]
+        runs += 5
+        for a, b, cl in ((v[0], v[1], -0.3), (v[1], v[2], 0.0), (v[2], v[3], 0.3), (v[3], v[4], 0.6)):
             val += 1
             if b > 0 and not b > a:
                 viol.append(dict(sig=dict(oracle="cdw_increasing_in_lift"), msg="CDw does not grow with lift at M=%g: %.3e -> %.3e" % (M, a, b), measure=float(a - b)))
